@@ -764,6 +764,9 @@ func finish(b *builder, m *merged, pl *plan, id, tier string, sd int64, start ti
 }
 
 func trunc(s string, n int) string {
+	if i := strings.Index(s, "\ngoroutine "); i > 0 && i < n {
+		n = i
+	}
 	if len(s) > n {
 		return s[:n] + "..."
 	}
